@@ -1,11 +1,54 @@
 (** C19 -- Independent program fragments compose: earlier code leaves no hidden state.
-    PARTIAL.  The full statement (P1;P2 prints out(P1) ++ out(P2 alone), same ending up to the line shift) needs the
-    refinement theorem R and the simulation theorem S of DESIGN.md, which are not proved; it is covered by the compose
-    stream (implementation-only metamorphic relation + model comparison).  What is proved here is that each kind of
-    residue named in the property cannot exist in the machine: *)
+    The headline is C19_fragments_compose (Proofs/Compose.v, from the generalised simulation of Sim2Defs.v / Sim2.v): take
+    the statement vector of P1;P2 -- c1 followed by c2 with its line/file metadata moved through any map pi -- and any
+    machine state at the first statement of P2 in which the control stacks are neutral and the one open scope binds none of
+    the names P2 mentions (whatever else P1 left there: variables, functions, containers anywhere in the arenas, free
+    lists, garbage, allocation counter, output already written).  Then running on from that state and running P2 ALONE
+    from the initial state end alike, under any two collection schedules: the output of P1;P2 is the output of P2 alone
+    after what had been written, the final world is the same, and an error has the same kind and payload and is located at
+    pi of the location in P2 alone.  The step laws below show that the control stacks ARE neutral at top level after
+    conditionals, returns, breaks and discarded containers; that P1's run actually arrives at such a state is their
+    composition over P1's execution, which is covered by the compose stream (not a theorem: it would need the structured
+    semantics R of DESIGN.md). *)
 From Pakhi Require Import Base Float64 Syntax Tables Lexer Interp.
-From Pakhi.Proofs Require Import Scope Control GCMark GCSweep.
+From Pakhi.Proofs Require Import Scope Control GCMark GCSweep WF WFOps Sim2Defs Sim2 Compose.
 Local Open Scope nat_scope.
+
+Theorem C19_fragments_compose : forall (N : text -> Prop) c1 c2 pi mA platform fuel schedA schedB bA,
+  let codeA := c1 ++ map (smap idn pi) c2 in
+  code_ok codeA -> code_ok c2 -> c2 <> [] ->
+  mwf codeA mA -> m_pc mA = length c1 -> m_loops mA = [] -> m_ret mA = [] -> m_loop_base mA = 0 ->
+  NoDup (h_free_lists (m_heap mA)) -> NoDup (h_free_recs (m_heap mA)) ->
+  (forall pc s, stmt_at c2 pc = Some s -> Forall N (snames s)) ->
+  (exists g, m_scopes mA = [g] /\ alist_get platform_const g = Some (VStr platform) /\
+             forall x, N x -> x <> platform_const -> alist_get x g = None) ->
+  match fst (run codeA fuel schedA bA mA), fst (run c2 fuel schedB 0 (init_machine platform (m_world mA))) with
+  | OutOfFuel, _ | _, OutOfFuel => True
+  | Ok nA, Ok nB => m_out nA = m_out nB ++ m_out mA /\ m_world nA = m_world nB
+  | Err eA, Err eB =>
+      e_kind eA = e_kind eB /\ e_tag eA = e_tag eB /\ e_out eA = e_out eB ++ m_out mA /\
+      (mkPos (e_line eA) (e_file eA) = pi (mkPos (e_line eB) (e_file eB)) \/
+       (e_kind eB = EUnexpected /\ e_line eA = e_line eB /\ e_file eA = e_file eB))
+  | Panic sA, Panic sB => sA = sB
+  | _, _ => False
+  end.
+Proof. exact compose. Qed.
+Print Assumptions C19_fragments_compose.
+
+(* non-vacuity: P1 = `নাম a = [..];` has run; P2 = `দেখাও "x";` -- the state after P1 meets every hypothesis (checked by
+   computation for the concrete vectors), and the two runs agree as the theorem says *)
+Example C19_compose_instance :
+  let p1 := mkPos 1 [] in let p2 := mkPos 2 [] in
+  let c1 := [FAssign AFirst [97%N] p1 [] (Some (EList [EStr [98%N] p1] p1)) p1] in
+  let c2 := [FPrint (EStr [120%N] p1) p1; FEOS p1] in
+  let pi := fun _ : pos => p2 in
+  let codeA := c1 ++ map (smap idn pi) c2 in
+  let m0 := init_machine [] (mkWorld [] [] []) in
+  let mA := match interp codeA 9 m0 with Ok m => m | _ => m0 end in
+  m_pc mA = 1 /\ m_loops mA = [] /\ m_ret mA = [] /\ length (m_scopes mA) = 1 /\
+  exists nA nB, fst (run codeA 9 None 1 mA) = Ok nA /\ fst (run c2 9 None 0 (init_machine [] (mkWorld [] [] []))) = Ok nB /\
+                m_out nA = m_out nB ++ m_out mA /\ m_out nB <> [].
+Proof. cbv zeta. split; [vm_compute; reflexivity|]. split; [vm_compute; reflexivity|]. split; [vm_compute; reflexivity|]. split; [vm_compute; reflexivity|]. eexists. eexists. split; [vm_compute; reflexivity|]. split; [vm_compute; reflexivity|]. split; [vm_compute; reflexivity|discriminate]. Qed.
 
 (* conditionals leave nothing behind: the else step is a function of the code and the program counter alone; any two
    machine states at the same else statement continue at the same place, each otherwise unchanged *)
